@@ -15,7 +15,7 @@ from .common import Out, drop_each, with_, REAL_ALL, STUB_ALL
 ID = "C11"
 TIERS = {"quick": {"n": 50000, "chunk": 250}, "thorough": {"n": 2000000, "chunk": 2000, "wall_cap": 3300}}
 RULE = (
-    "each scenario is a seeded history (3-8 ops, 1 in 8 up to 25) over {write source (4 source paths incl. same basename in two dirs, 3 fixed contents + fresh ones), "
+    "each scenario is a seeded history (3-8 ops, 1 in 8 up to 25) over {write source (5 source paths incl. same basename in two dirs and a name with two dots, 3 fixed contents + fresh ones), "
     "add_named_file (2 names), remove_named_file, restart}; after every op the store is compared with the abstract model through the live and a fresh instance and by a disk walk. "
     "A scenario is non-trivial when some name holds >= 2 registrations; distinct = distinct abstract op-class sequences (op kind, name, content class new/current/earlier, basename change, instance age)."
 )
@@ -26,7 +26,7 @@ ASSUMPTIONS = [
 REAL = REAL_ALL
 STUB = STUB_ALL
 
-SOURCES = ["d0/a.csv", "d1/a.csv", "d0/b.csv", "d1/c.txt"]
+SOURCES = ["d0/a.csv", "d1/a.csv", "d0/b.csv", "d1/c.txt", "d1/r.2024-03.csv"]
 NAMES = ["n0", "n1"]
 
 
@@ -39,7 +39,7 @@ def generate(rng, i, tier):
     n = rng.randint(9, 25) if long else rng.randint(3, 8)
     weights = {"write": rng.choice([2, 3, 4]), "add": rng.choice([3, 4, 6]), "remove": rng.choice([0, 1, 1, 2]), "restart": rng.choice([0, 1, 2])}
     kinds = [k for k, w in weights.items() for _ in range(w)]
-    srcs = rng.sample(SOURCES, rng.randint(2, 4))
+    srcs = rng.sample(SOURCES, rng.randint(2, 5))
     opsl = []
     fresh = 0
     # always start with something registrable
@@ -160,6 +160,9 @@ def _check_disk(out, model, step):
             if fpath and os.path.isfile(fpath):
                 if _sha(_read(fpath)) != m.get("fingerprint"):
                     out.v("manifest_file_mismatch", f"step {step} {name}: manifest entry points at {fpath} whose bytes do not hash to its fingerprint")
+            elif fpath:
+                # the manifest is the library's own record of where each registered version lives
+                out.v("manifest_file_missing", f"step {step} {name}: manifest entry for version {str(m.get('fingerprint'))[:12]} (from {m.get('from')}) points at {fpath}, which is no longer on disk")
     for t in sorted(set(m.get("time", "")[:4] for name in model for m in _manifest(name))):
         if t and t < "2031":
             out.v("CLOCK-SEAM-BYPASSED", f"manifest time year {t}")
